@@ -724,12 +724,84 @@ func (g *Gen) genMergeCase(cfgMod func(*batchCfg), dump func(seg string), depth 
 	}
 }
 
+// bigMergeCase: two segments with more than 1024 documents sharing a term, and deletions
+// that move the term's cardinality across a multiple of 1024 (chunk modes 1025/1026 size
+// chunks from the cardinality; writer and reader must agree on it).
+func (g *Gen) bigMergeCase() {
+	mode := []int{1026, 1026, 1025, 1024, 3}[g.r.Intn(5)]
+	g.curMode = mode
+	g.emit("cfg chunkmode=%d", mode)
+	var segs []string
+	sizes := []int{600 + g.r.Intn(200), 500 + g.r.Intn(300)}
+	if g.chance(0.3) {
+		sizes = []int{1100 + g.r.Intn(300)}
+	}
+	for k, nd := range sizes {
+		b := &BatchSpec{Name: g.fresh("b")}
+		for d := 0; d < nd; d++ {
+			id := []byte(fmt.Sprintf("%s-%d", b.Name, d))
+			doc := DocSpec{ID: id, Plain: true}
+			doc.Fields = append(doc.Fields, FieldSpec{Kind: "fld", Name: "_id", Typ: 't', Stored: true, Len: 1, Val: id, Toks: []TokSpec{{Term: id, Freq: 1}}})
+			t := TokSpec{Term: []byte("common"), Freq: 1 + (d+k)%3}
+			if d%5 != 0 {
+				t.Locs = []LocSpec{{Pos: 1 + d%7, Start: d, End: d + 3}}
+			}
+			toks := []TokSpec{t}
+			if d%2 == 0 {
+				toks = append(toks, TokSpec{Term: []byte("even"), Freq: 1})
+			}
+			doc.Fields = append(doc.Fields, FieldSpec{Kind: "fld", Name: "body", Typ: 't', Len: 2 + d%4, DV: k == 0, Toks: toks})
+			b.Docs = append(b.Docs, doc)
+		}
+		g.emitBatch(b)
+		s := g.fresh("s")
+		g.emit("build %s %s", s, b.Name)
+		g.newBuilt(s, b)
+		segs = append(segs, s)
+	}
+	var drops []string
+	total := 0
+	for _, s := range segs {
+		nd := g.ndocs[s]
+		var xs []int
+		frac := []float64{0, 0.15, 0.3, 0.5}[g.r.Intn(4)]
+		for d := 0; d < nd; d++ {
+			if g.chance(frac) {
+				xs = append(xs, d)
+			}
+		}
+		d := "nil"
+		if len(xs) > 0 {
+			d = intList(xs)
+		}
+		drops = append(drops, d)
+		total += nd - len(xs)
+	}
+	f := g.fresh("f")
+	g.emit("merge %s segs=%s drops=%s", f, strList(segs), strings.Join(drops, "|"))
+	m := g.fresh("m")
+	g.emit("open %s %s", m, f)
+	g.emit("q count %s", m)
+	for _, term := range []string{"common", "even"} {
+		g.emit("q post %s body %s ex=nil fl=111 ops=%s", m, hx([]byte(term)), g.nexts(total+1))
+		g.emit("q post %s body %s ex=nil fl=100 ops=A%d,N,A%d,N,N,A%d,N", m, hx([]byte(term)), total/3, total/2, total-2)
+		g.emit("q post %s body %s ex=%d,%d fl=111 ops=A%d,N,N,A%d,N", m, hx([]byte(term)), total/2, total/2+1, total/2-1, total-3)
+	}
+	g.emit("q dict %s body aut=all lo=* hi=* probe=-", m)
+	g.emit("close %s", m)
+	g.st("bigmerge")
+}
+
 func (g *Gen) genMerge(prop string, n int) error {
 	if n == 0 {
 		n = g.tierN(320, 6000)
 	}
 	for i := 0; i < n; i++ {
 		g.emit("note case %d", i)
+		if prop == "C06" && i%107 == 53 {
+			g.bigMergeCase()
+			continue
+		}
 		depth := 1 + g.r.Intn(3)
 		g.genMergeCase(nil, func(m string) {
 			if prop == "C05" {
